@@ -15,7 +15,7 @@ LEVEL_TEXT = ("Exhaustive for k = 2 (every mask x t = 1..4 x dtype bool / int64)
               "sampled for k = 1, 3, 4 and a few graphs of order 5 and 6 per shard incl. masks built around information-free cycles. The oracle is exact "
               "(the union of closed sets is closed), so equality is demanded.")
 LEVEL_NOTE = "Trusts the 25-line fixed-point oracle in vlib/graphs.py (Python sets)."
-PLAN = {"quick": dict(shards=16, budget=130), "thorough": dict(shards=32, budget=600)}
+PLAN = {"quick": dict(shards=16, budget=130), "thorough": dict(shards=16, budget=600)}
 EXHAUSTIVE = ["k=2: all 65536 masks x t=1..4"]
 RULE = ("connect_coding_graph(k, mask, t) for every order-2 mask x t in 1..4, random masks of density 0.2..0.98 for k = 1,3,4(,5), "
         "masks from LocalBioFilter settings, and masks seeded with an information-free cycle of length 1..6 plus a chain "
